@@ -1,6 +1,9 @@
 // Correspondence harness for the deck text models (C01, C19, lexer part of C20).
 //
 //   deck corr <seed> <tier> <outdir>      ops.txt / impl.txt / stats.json
+//   deck corrlex <seed> <tier> <outdir>   the lexical part only (function level on arbitrary
+//                                         bytes + keyword assembly), for the C20 check, which
+//                                         runs it against the UBSan / bounds-checked build
 //   deck canon <model.txt> <out.txt>      rewrites `t<hex>` double tokens of the model's
 //                                         answers into bit patterns with the real
 //                                         readValueToken<double>
@@ -64,10 +67,21 @@ static std::string unhex(const std::string& h) {
 
 // ---------------------------------------------------------------- generators
 
+// set by `corrlex` (the C20 stage): every third line is made of uniformly random bytes
+static bool g_wild = false;
+
 static std::string randLine(vh::Rng& r, int maxLen, bool newlines) {
     static const std::string common = "ABCabc019 \t ,'\"--//**.+-eEdD\r_";
     int n = r.coin(1, 12) ? 0 : r.range(1, maxLen);
     std::string s;
+    if (g_wild && r.coin(1, 3)) {
+        for (int i = 0; i < n; ++i) {
+            char c = static_cast<char>(r.range(0, 255));
+            if (c == '\n' && !newlines) c = '/';
+            s.push_back(c);
+        }
+        return s;
+    }
     for (int i = 0; i < n; ++i) {
         int k = r.range(0, 99);
         if (k < 70) s.push_back(common[r.below(common.size())]);
@@ -289,12 +303,15 @@ static const char* KEYWORDS[] = {
     "WSEGVALV", "COMPSEGS", "WELSEGS", "VFPPROD", "TUNING", "ENDSCALE", "GRIDOPTS", "RPTRST", "ACTIONX", "WLIST",
     "UDQDIMS", "NETBALAN", "BRANPROP", "NODEPROP", "WTEST", "GLIFTOPT", "WLIFTOPT", "AQUCT", "AQUANCON", "INCLUDE"};
 
-static int corr(uint64_t seed, const std::string& tier, const std::string& outdir) {
+// lexOnly (mode `corrlex`, used by the C20 check): function level on arbitrary bytes and the
+// keyword assembly level only, twice as many lines, wild byte distribution.
+static int corr(uint64_t seed, const std::string& tier, const std::string& outdir, bool lexOnly) {
     vh::Rng r(seed);
     vh::Sink sink(outdir);
     const bool thorough = tier == "thorough";
-    const int nLines = thorough ? 300000 : 30000;
-    const int nRecords = thorough ? 200000 : 20000;
+    g_wild = lexOnly;
+    const int nLines = (thorough ? 300000 : 30000) * (lexOnly ? 2 : 1);
+    const int nRecords = lexOnly ? 0 : (thorough ? 200000 : 20000);
 
     Opm::Parser parser;
     const auto codeKws = parser.codeKeywords();
@@ -384,6 +401,9 @@ static int corr(uint64_t seed, const std::string& tier, const std::string& outdi
                 sink.count("fn.split.ok");
             } catch (const std::exception&) { ans = "err"; sink.count("fn.split.err"); }
             sink.emit("deck.split " + hex(rec) + " " + hex(std::string(1, next)), ans);
+            // the same answer is expected from the pointer-level mirror of the tokeniser
+            // (Model/LexPtr.lean: offsets, checked iterator arithmetic; `ub` never expected)
+            sink.emit("deck.splitp " + hex(rec) + " " + hex(std::string(1, next)), ans);
             break; }
         case 14: {
             std::string t;
@@ -551,7 +571,7 @@ static int corr(uint64_t seed, const std::string& tier, const std::string& outdi
         sink.count(std::string("kw.class.") + k.st + (k.raw ? "raw" : "") + (k.dbl ? "dbl" : "") + (k.alt ? "alt" : ""));
     }
     const std::string sentinel = "OIL";
-    const int nKw = thorough ? 60000 : 8000;
+    const int nKw = lexOnly ? (thorough ? 30000 : 4000) : (thorough ? 60000 : 8000);
     struct PoolEntry { size_t kw; std::string text; };
     std::vector<PoolEntry> pool;
     for (int n = 0; n < nKw && !kws.empty(); ++n) {
@@ -655,7 +675,7 @@ static int corr(uint64_t seed, const std::string& tier, const std::string& outdi
         // (v) deck level writer: operator<<(ostream, Deck) against the model's mirror of the
         // DeckOutput state machine (default_count / row_count survive from record to record and
         // into a TITLE keyword).
-        if (ans != "err") {
+        if (ans != "err" && !lexOnly) {
             std::string text2 = prefix + k.name + "\n" + text;
             bool withTitle = r.coin(1, 2);
             if (withTitle) text2 += "TITLE\n  " + randWord(r) + (r.coin() ? " " + randWord(r) + " 3" : "") + "\n";
@@ -690,7 +710,7 @@ static int corr(uint64_t seed, const std::string& tier, const std::string& outdi
 
     // (vi) deck level: several keywords, END, and INCLUDE splitting into temporary files, real
     // Parser::parseString against the model's keyword loop (`Deck.parseLoop`).
-    {
+    if (!lexOnly) {
         auto sizeSpec = [&](const KwS& k) -> std::string {
             if (!k.dimsKw.empty()) return "O" + hex(k.dimsKw) + "." + std::to_string(k.dimsItem) + "." + (k.st == 'T' ? "T" : "F");
             switch (k.st) { case 'S': return "S"; case 'U': return "U"; case 'D': return "D"; default: return "F" + std::to_string(k.size); }
@@ -862,7 +882,8 @@ int main(int argc, char** argv) {
     if (argc < 5) { std::cerr << "usage: deck corr <seed> <tier> <outdir> | deck canon <in> <out>\n"; return 2; }
     std::string mode = argv[1];
     uint64_t seed = std::stoull(argv[2]);
-    if (mode == "corr") return corr(seed, argv[3], argv[4]);
+    if (mode == "corr") return corr(seed, argv[3], argv[4], false);
+    if (mode == "corrlex") return corr(seed, argv[3], argv[4], true);
     std::cerr << "unknown mode\n";
     return 2;
 }
